@@ -37,7 +37,7 @@ static int32_t flush_cb(void *ctx) { (void)ctx; return 0; }
 
 /* reading side */
 typedef struct { uint8_t *data; size_t len, pos; Sink files[MAXSLOT]; char names[MAXSLOT][600]; size_t namelens[MAXSLOT]; int nfiles;
-                 long sched[16]; int nsched; } Src;
+                 long sched[16]; int nsched; char decl[MAXSLOT][600]; size_t decllens[MAXSLOT]; int ndecl; } Src;
 static int32_t read_cb(uint8_t *buf, uint32_t len, void *ctx, uint32_t *nread) {
   Src *s = (Src *)ctx;
   size_t n = s->len - s->pos < len ? s->len - s->pos : len;
@@ -52,6 +52,7 @@ static int32_t seek_cb(int64_t off, int32_t whence, void *ctx, uint64_t *newpos)
 }
 static int32_t file_cb(void *ctx, const uint8_t *name, uintptr_t namelen, struct FileWriter *fw) {
   Src *s = (Src *)ctx;
+  for (int i = 0; i < s->ndecl; i++) if (s->decllens[i] == namelen && memcmp(s->decl[i], name, namelen) == 0) return 1;  /* declined */
   int k = -1;
   for (int i = 0; i < s->nfiles; i++) if (s->namelens[i] == namelen && memcmp(s->names[i], name, namelen) == 0) k = i;
   if (k < 0) {
@@ -88,6 +89,7 @@ int main(int argc, char **argv) {
   Sink sink; memset(&sink, 0, sizeof sink);
   char *pub = NULL, *priv = NULL;
   char outpath[1024] = "";
+  static char decl[MAXSLOT][600]; static size_t decllens[MAXSLOT]; int ndecl = 0;
   MLAConfigHandle cfg = NULL; MLAArchiveHandle ar = NULL;
   MLAArchiveFileHandle fh[MAXSLOT]; memset(fh, 0, sizeof fh);
   char line[4096];
@@ -99,6 +101,7 @@ int main(int argc, char **argv) {
     else if (!strcmp(tok[0], "pub")) pub = slurp(tok[1], NULL);
     else if (!strcmp(tok[0], "priv")) priv = slurp(tok[1], NULL);
     else if (!strcmp(tok[0], "out")) strcpy(outpath, tok[1]);
+    else if (!strcmp(tok[0], "decline")) { decllens[ndecl] = unhex(nt > 1 ? tok[1] : "", decl[ndecl]); ndecl++; }
     else if (!strcmp(tok[0], "dump")) { FILE *o = fopen(outpath, "wb"); fwrite(sink.data, 1, sink.len, o); fclose(o); fprintf(res, "D %zu %d\n", sink.len, sink.fired); }
     else if (!strcmp(tok[0], "CALL")) {
       int idx = atoi(tok[1]), null_round = atoi(tok[2]), arm = atoi(tok[3]);
@@ -135,6 +138,7 @@ int main(int argc, char **argv) {
       Src src; memset(&src, 0, sizeof src);
       size_t al; src.data = (uint8_t *)slurp(tok[1], &al); src.len = al;
       src.nsched = sink.nsched; memcpy(src.sched, sink.sched, sizeof(sink.sched));
+      src.ndecl = ndecl; memcpy(src.decl, decl, sizeof decl); memcpy(src.decllens, decllens, sizeof decllens);
       MLAConfigHandle rcfg = NULL;
       MLAStatus s1 = mla_reader_config_new(&rcfg);
       MLAStatus s2 = mla_reader_config_add_private_key(rcfg, priv);
